@@ -284,3 +284,57 @@ m('C20-m2', 'C20', 'worterbuch-client/src/lib.rs', '''            Command::Unsub
                 callbacks.sub.remove(&transaction_id);
                 callbacks.psub.remove(&transaction_id);''', '''            Command::UnsubscribeAsync(transaction_id, callback) => {
                 callbacks.sub.remove(&transaction_id);''', 'C20.f')
+
+
+# ======================================================================================================================
+# behaviour-preserving edits: the rules must stay SILENT on these (rule = None)
+m('C13-r1', 'C13', W + 'server/common/protocol/v0.rs', """    pub async fn get(&self, msg: Get) -> WorterbuchResult<()> {
+        let value = match self.worterbuch.get(msg.key).await {
+            Ok(it) => it,
+            Err(e) => {
+                self.handle_store_error(e, msg.transaction_id).await?;
+                return Ok(());
+            }
+        };
+
+        let response = State {
+            transaction_id: msg.transaction_id,""", """    pub async fn get(&self, request: Get) -> WorterbuchResult<()> {
+        let msg = request;
+        let tid = msg.transaction_id;
+        let value = match self.worterbuch.get(msg.key).await {
+            Ok(it) => it,
+            Err(e) => {
+                self.handle_store_error(e, tid).await?;
+                return Ok(());
+            }
+        };
+
+        let response = State {
+            transaction_id: tid,""", None)
+m('C02-r1', 'C02', W + 'store.rs', """            (Some(ValueEntry::Cas(current, _)), ValueEntry::Plain(val), true) => {
+                // cas value present, we can insert plain value if insertion is forced
+                (true, current != &val, ValueEntry::Plain(val))
+            }
+            (Some(ValueEntry::Cas(_, _)), ValueEntry::Plain(_), false) => {
+                // cas value present, we cannot insert plain value
+                return Err(StoreError::Cas);
+            }""", """            (Some(ValueEntry::Cas(_, _)), ValueEntry::Plain(_), false) => {
+                // cas value present, we cannot insert plain value
+                return Err(StoreError::Cas);
+            }
+            (Some(ValueEntry::Cas(current, _)), ValueEntry::Plain(val), true) => {
+                // cas value present, we can insert plain value if insertion is forced
+                (true, current != &val, ValueEntry::Plain(val))
+            }""", None)
+m('C08-r1', 'C08', W + 'worterbuch.rs', 'if path.len() <= 3 || path[1] != SYSTEM_TOPIC_CLIENTS', 'if path.len() < 4 || path[1] != SYSTEM_TOPIC_CLIENTS', None)
+m('C17-r1', 'C17', W + 'worterbuch.rs', 'if path.len() <= 3 || path[1] != SYSTEM_TOPIC_CLIENTS', 'if path.len() < 4 || path[1] != SYSTEM_TOPIC_CLIENTS', None)
+m('C19-r1', 'C19', OR + 'election.rs', """        if self.votes_in_my_favor >= self.config.quorum {
+            info!("This instance is now the leader.");""", """        if self.config.quorum <= self.votes_in_my_favor {
+            info!("This instance is now the leader.");""", None)
+m('C15-r1', 'C15', W + 'auth.rs', """            (None, None) | (Some(KeySegment::MultiWildcard), Some(_)) => return true,""", """            (Some(KeySegment::MultiWildcard), Some(_)) => return true,
+            (None, None) => return true,""", None)
+m('C01-r1', 'C01', W + 'worterbuch.rs', """        match self.store.delete(&path)? {
+            Some((value, ls_subscribers)) => {""", """        trace!("deleting {key}");
+        match self.store.delete(&path)? {
+            Some((value, ls_subscribers)) => {""", None)
+m('C03-r1', 'C03', W + 'worterbuch.rs', """            .filter(|s| value_changed || !s.is_unique())""", """            .filter(|s| !s.is_unique() || value_changed)""", None)
